@@ -131,6 +131,12 @@ mod imp {
     pub fn harvest(_buf: &[u8]) {}
     #[inline(always)]
     pub fn race(_what: u8, _value: u8) {}
+    pub fn reset_counters() {}
+    pub fn counters() -> super::Counters { super::Counters { cursors: 0, travel: 0, back: 0, peeks: 0, peek_bytes: 0, loads: 0, ops: 0 } }
+    pub fn log_enable(_on: bool) {}
+    pub fn take_log() -> [super::Op; 0] { [] }
+    pub fn race_enable(_on: bool) {}
+    pub fn take_race() -> [(u8, u8); 0] { [] }
 }
 
 pub use self::imp::*;
